@@ -29,6 +29,7 @@ func checkC02(c *Ctx, r *Report) {
 	r.rule("C02.R9", "the record opened or continued under a session reference (ue.Cdr[ref] = rec) is the record added to the subscriber's record list (ue.Records) in the same step, and the reverse: the file is dumped from the list, updates go to the map", 2)
 	r.rule("C02.R8", "every CHOICE value built by the module selects (Present) exactly the alternative it fills", 3)
 	r.rule("C02.R7", "every type reachable from the record round-trips through the JSON deep copy of the split (exhaustive over the type graph)", 40)
+	r.rule("C02.R10", "a session reference designates the record of one session only: allocated number, injective construction, writers of ue.Cdr, a new record per new reference (shared with C10.R1/R2/R3/R6) - otherwise usage reported for one session lands in another session's record", 4)
 	r.rule("C02.R6", "a record that continues a session starts with a fresh empty usage list (no shared backing array, no repeated containers)", 2)
 
 	c02RecordSelection(c, r)
@@ -37,6 +38,7 @@ func checkC02(c *Ctx, r *Report) {
 	c02Cause(c, r)
 	c02Timestamp(c, r)
 	c02SplitFresh(c, r, "C02.R6")
+	r.shareFrom(c, checkC10, map[string]string{"C10.R1": "C02.R10", "C10.R2": "C02.R10", "C10.R3": "C02.R10", "C10.R6": "C02.R10"})
 	c02DeepCopyFidelity(c, r, "C02.R7")
 	c02ChoiceSelectors(c, r, "C02.R8")
 	c02RecordsAgree(c, r)
